@@ -70,7 +70,7 @@ func (l *vhLedger) vhLive() []int {
 }
 
 // vhConcreteShape: every DAG shape with n vertices after genesis, concrete parties and amounts
-// (vertex i pays 1 from A to B, B to A alternating; vertex 2 is a self-transfer, vertex 3 carries data only).
+// (vertex i pays 1 from A to B, B to A alternating; vertex 2 is a self-transfer, vertex 1 carries data only).
 func vhConcreteShape(n int) *vhLedger {
 	l := vhGenesisLedger("A", spice.New(100, 0))
 	for i := 1; i <= n; i++ {
@@ -84,8 +84,8 @@ func vhConcreteShape(n int) *vhLedger {
 			rcv = iss
 		}
 		amt, data := spice.New(1, uint64(i)), []byte(nil)
-		if i == 3 {
-			amt, data = spice.Melange{}, []byte{7} // a data-only (contract) vertex
+		if i == 1 {
+			amt, data = spice.Melange{}, []byte{7} // a data-only (contract) vertex, deep enough to be moved
 		}
 		l.add(vhTransfer(i, iss, rcv, amt, data, vhPeerAddr, uint64(50+i)), lp, rp)
 	}
